@@ -27,7 +27,17 @@ pub struct Case {
 
 pub fn build_case(t: &mut Tape) -> Case {
     let corp = corpus::corpus();
-    let e = &corp[t.below(corp.len())];
+    let generated = t.chance(1, 4);
+    let gen_entry;
+    let e = if generated {
+        // a generated program (size-static or cascading, with banks and faults) as the seed text
+        let prog = if t.flip() { crate::props::c01::gen_case(t, 18, true, true).0 } else { crate::props::c02::gen_cascade(t, 18).0 };
+        let (src, _) = crate::model::program::render(&prog);
+        gen_entry = corpus::CorpusEntry { name: "generated".into(), root: "main.asm".into(), files: vec![("main.asm".into(), src.into_bytes())], command: None };
+        &gen_entry
+    } else {
+        &corp[t.below(corp.len())]
+    };
     let mut files = e.files.clone();
     // mutate the root file (and sometimes one other .asm of the set)
     let others: Vec<String> = (0..3)
@@ -42,7 +52,7 @@ pub fn build_case(t: &mut Tape) -> Case {
     let root_idx = files.iter().position(|f| f.0 == e.root).unwrap();
     {
         let text = String::from_utf8_lossy(&files[root_idx].1).to_string();
-        let m = mutate::mutate(t, &text, &others_ref, 8);
+        let m = mutate::mutate(t, &text, &others_ref, if generated { 3 } else { 8 });
         edits += m.edits;
         kinds.extend(m.kinds);
         files[root_idx].1 = m.bytes;
@@ -229,7 +239,7 @@ impl Property for C03 {
         "fault_enumeration"
     }
     fn rule(&self) -> String {
-        "each case = one corpus test directory (read from /repo/tests, /repo/examples at run time) whose .asm files get 0-8 token-level edits \
+        "each case = one corpus test directory (read from /repo/tests, /repo/examples at run time; one case in four: a generated size-static or cascading program with banks and injected faults instead) whose .asm files get 0-8 token-level edits \
          (replace/insert dictionary token incl. every directive, operator, number form, 2/3/4-byte characters, NUL; delete; duplicate; swap; \
          splice a line of another file; truncate possibly inside a UTF-8 sequence) x a generated command line (its own `; command:` line or \
          budget 1/2/3/10/30, both debug switches, 0-2 defines valid/invalid, 1-3 output groups over every format name incl. invalid ones, -o/-p). \
@@ -246,7 +256,7 @@ impl Property for C03 {
         ]
     }
     fn tape_len(&self, _t: Tier) -> usize {
-        160
+        520
     }
     fn random_cases(&self, tier: Tier) -> u64 {
         tier.pick(200_000, 3_000_000)
@@ -272,6 +282,10 @@ impl Property for C03 {
         }
         ctx.hash = h;
         let pred = input_predicate(&case.files);
+        if std::env::var("VERIF_RENDER_ONLY").is_ok() {
+            eprintln!("{}", serde_json::to_string_pretty(&render(&case, json!(null))).unwrap());
+            return Verdict::Pass;
+        }
         let t0 = std::time::Instant::now();
         let (r, fail) = judge_run(&case.files, &case.args, None);
         ctx.evals += 1;
@@ -291,7 +305,10 @@ impl Property for C03 {
         let phase = if o.ok { "ok" } else { phase_of(&o.msgs) };
         ctx.label(format!("phase:{}", phase));
         ctx.label(format!("edits:{}", case.edits.min(8)));
-        ctx.nontrivial = case.edits >= 1 && !matches!(phase, "parse" | "cli" | "io");
+        ctx.nontrivial = (case.edits >= 1 || case.seed_name == "generated") && !matches!(phase, "parse" | "cli" | "io");
+        if case.seed_name == "generated" {
+            ctx.label("seed:generated");
+        }
         ctx.render(|| render(&case, json!({"phase": phase})));
 
         if do_faults {
